@@ -206,7 +206,12 @@ pub fn set_park_background_only(on: bool) {
 }
 
 /// Wait (real time, bounded) until some background thread is parked at any point; returns it.
+/// Real-time waits for a thread to show up are multiplied by this: a verdict "the thread never arrived" is only given
+/// after the case was repeated with more patience (a loaded machine may not schedule a thread for seconds).
+pub static PATIENCE: std::sync::atomic::AtomicU64 = std::sync::atomic::AtomicU64::new(1);
+
 pub fn wait_parked_background(timeout_ms: u64) -> Option<ParkedThread> {
+    let timeout_ms = timeout_ms * if timeout_ms >= 1000 { PATIENCE.load(Ordering::SeqCst) } else { 1 };
     let start = vtime::real_now_ns();
     loop {
         if let Some(p) = with_ctl(|c| c.parked.iter().find(|p| !p.on_server_thread && !p.released).cloned()) {
@@ -272,6 +277,7 @@ pub fn wait_parked(point: u32, timeout_ms: u64) -> Option<ParkedThread> {
 
 /// Wait until a counter reaches a value
 pub fn wait_counter(point: u32, at_least: u64, timeout_ms: u64) -> bool {
+    let timeout_ms = timeout_ms * if timeout_ms >= 1000 { PATIENCE.load(Ordering::SeqCst) } else { 1 };
     let start = vtime::real_now_ns();
     loop {
         if counter(point) >= at_least {
